@@ -25,6 +25,7 @@ package nsqlookupd
 
 //@ func getTopicChan(command string, params []string) (string, string, error)
 //@   props C15 C14
+//@   modifies
 //@   ensures[no-params] len(params) == 0 ==> isFatal(result2, "E_INVALID")
 //@   ensures[errors] result2 != nil ==> isFatal(result2, "E_INVALID") || isFatal(result2, "E_BAD_TOPIC") || isFatal(result2, "E_BAD_CHANNEL")
 //@   ensures[ok] result2 == nil ==> len(params) >= 1 && result0 == params[0] && (len(params) >= 2 ==> result1 == params[1]) && (len(params) < 2 ==> result1 == "")
@@ -78,7 +79,8 @@ package nsqlookupd
 //@ pred hasProd(r *RegistrationDB, k Registration, id string) := has(r.registrationMap, k) && has(r.registrationMap[k], id)
 
 //@ func (r *RegistrationDB) AddRegistration(k Registration)
-//@   props C14
+//@   props C14 C15
+//@   modifies r.registrationMap, mapstore(map[Registration]ProducerMap), mapstore(ProducerMap)
 //@   ghostparam gk Registration
 //@   ghostparam gid string
 //@   requires r != nil
@@ -87,7 +89,8 @@ package nsqlookupd
 //@   ensures[producers-kept] atunlock(hasProd(r, gk, gid)) <==> atlock(hasProd(r, gk, gid))
 
 //@ func (r *RegistrationDB) AddProducer(k Registration, p *Producer) bool
-//@   props C14
+//@   props C14 C15
+//@   modifies r.registrationMap, mapstore(map[Registration]ProducerMap), mapstore(ProducerMap)
 //@   ghostparam gk Registration
 //@   ghostparam gid string
 //@   requires r != nil && p != nil && p.peerInfo != nil
@@ -99,7 +102,8 @@ package nsqlookupd
 //@   ensures[other-keys] gk != k ==> (atunlock(hasKey(r, gk)) <==> atlock(hasKey(r, gk)))
 
 //@ func (r *RegistrationDB) RemoveProducer(k Registration, id string) (bool, int)
-//@   props C14
+//@   props C14 C15
+//@   modifies r.registrationMap, mapstore(map[Registration]ProducerMap), mapstore(ProducerMap)
 //@   ghostparam gk Registration
 //@   ghostparam gid string
 //@   requires r != nil
@@ -111,7 +115,8 @@ package nsqlookupd
 //@   ensures[keys-kept] atunlock(hasKey(r, gk)) <==> atlock(hasKey(r, gk))
 
 //@ func (r *RegistrationDB) RemoveRegistration(k Registration)
-//@   props C14
+//@   props C14 C15
+//@   modifies r.registrationMap, mapstore(map[Registration]ProducerMap), mapstore(ProducerMap)
 //@   ghostparam gk Registration
 //@   ghostparam gid string
 //@   requires r != nil
@@ -123,3 +128,33 @@ package nsqlookupd
 //@   props C14
 //@   ensures result == (category == k.Category && (key == "*" || k.Key == key) && (subkey == "*" || k.SubKey == subkey))
 //@   modifies
+
+//@ func (r *RegistrationDB) needFilter(key string, subkey string) bool
+//@   props C14
+//@   ensures result == (key == "*" || subkey == "*")
+//@   modifies
+
+//@ pred matches(k Registration, category string, key string, subkey string) :=
+//@      category == k.Category && (key == "*" || k.Key == key) && (subkey == "*" || k.SubKey == subkey)
+
+// Every key returned is a key of the map (at release of the read lock) and matches the query.
+//@ func (r *RegistrationDB) FindRegistrations(category string, key string, subkey string) Registrations
+//@   props C14 C15
+//@   requires r != nil
+//@   ensures[sound] forall i int :: {result[i]} 0 <= i && i < len(result) ==> atunlock(hasKey(r, now(result[i]))) && matches(result[i], category, key, subkey)
+//@   ensures[exact] forall k Registration :: key != "*" && subkey != "*" && k.Category == category && k.Key == key && k.SubKey == subkey ==>
+//@        ((len(result) == 1 && result[0] == k) <==> atunlock(hasKey(r, k))) && (len(result) == 0 <==> !atunlock(hasKey(r, k)))
+//@   modifies r.registrationMap, mapstore(map[Registration]ProducerMap), mapstore(ProducerMap)
+//@   loop 0
+//@     invariant fresh(results)
+//@     invariant forall i int :: {results[i]} 0 <= i && i < len(results) ==> hasKey(r, results[i]) && matches(results[i], category, key, subkey)
+
+// Every key returned has this peer among its producers.
+//@ func (r *RegistrationDB) LookupRegistrations(id string) Registrations
+//@   props C14 C15
+//@   requires r != nil
+//@   ensures[sound] forall i int :: {result[i]} 0 <= i && i < len(result) ==> atunlock(hasProd(r, now(result[i]), id))
+//@   modifies r.registrationMap, mapstore(map[Registration]ProducerMap), mapstore(ProducerMap)
+//@   loop 0
+//@     invariant fresh(results)
+//@     invariant forall i int :: {results[i]} 0 <= i && i < len(results) ==> hasProd(r, results[i], id)
